@@ -1174,7 +1174,7 @@ def main(argv):
             return out.finish()
 
         # ---- parse stream
-        ng, nn, ne, nr, nb = (60, 80, 25, 60, 30) if not thorough else (1500, 2500, 300, 2500, 1000)
+        ng, nn, ne, nr, nb = (60, 80, 25, 60, 30) if not thorough else (800, 1200, 200, 1200, 500)
         corpus = []
         cdir = os.path.join(vlib.VERIF, "corpus", PID)
         if os.path.isdir(cdir):
@@ -1262,7 +1262,7 @@ def main(argv):
 
         log("parse stream classified and shrunk")
         # ---- merge stream
-        nm = 60 if not thorough else 2000
+        nm = 60 if not thorough else 1000
         mcases = fixed_merge_cases() + [gen_merge_case(rng) for _ in range(nm)]
         merge_fail_spec, merge_fail_model = [], []
         msigs = []
